@@ -30,6 +30,7 @@ Import ListNotations.
 From TI Require Import lib.Eff gen.Skeletons.
 From TI Require Import model.KittyChunks proofs.KittyChunksProofs.
 From TI Require Import model.ImgIter model.ImgIterSpec proofs.ImgIterProofs.
+From TI Require Import model.ImgIterEnv proofs.ImgIterEnvProofs.
 From TI Require Import model.ImgSkel proofs.SkelC11.
 Local Open Scope Z_scope.
 
@@ -176,6 +177,98 @@ Theorem C11_ended_is_final :
     trace fmt_frame hash N cached s ops = map (ended_view Str N (pos s) (loop_no s)) ops.
 Proof. exact ended_is_final. Qed.
 Print Assumptions C11_ended_is_final.
+
+(* ---- round 4: runs of consecutive seeks (model/ImgIterEnv.v (b), proofs/ImgIterEnvProofs.v) ---- *)
+
+(** THE LAST SEEK WINS: after any history that leaves the iterator started and open (first
+    loop or cached loop), for EVERY run of seeks p1 .. pk, p (k >= 0, positions in range)
+    followed by next(): every seek of the run is acknowledged and moves neither
+    image.tell() nor loop_no; the frame then yielded is frame p formatted at the current
+    size (or its failure, which closes the iterator), image.tell() = p, and no pass is
+    consumed.  [seek_run ps] = seek(p) for each p of ps, then next(). *)
+Theorem C11_seek_run_last_wins :
+  forall (Str Size : Type) (fmt_frame : nat -> Size -> res Str) (hash : Size -> Z) (N : nat)
+         (cached : bool) (repeat pos0 : Z) (z0 : Size) (ops : list (op Size)) (ps : list Z) (p : Z),
+    renderer_ok fmt_frame N -> repeat <> 0 ->
+    (cached = true -> hash_separates hash (sizes_of z0 ops)) ->
+    let s := after fmt_frame hash N cached repeat pos0 z0 ops in
+    (ph s = P1 \/ ph s = P2) ->
+    Forall (fun q => 0 <= q < Z.of_nat N) ps -> 0 <= p < Z.of_nat N ->
+    trace fmt_frame hash N cached s (seek_run Size (ps ++ [p])) =
+    map (fun _ => (OSeekOk, pos s, loop_no s, true)) (ps ++ [p]) ++
+    [match fmt_frame (Z.to_nat p) (size s) with
+     | Ok f => (OYield (Z.to_nat p) f, p, loop_no s, true)
+     | _ => (ORaise, p, loop_no s, false)
+     end].
+Proof. exact seek_run_last_wins. Qed.
+Print Assumptions C11_seek_run_last_wins.
+
+(** a run of seeks before the first frame: each one is refused (ValueError when out of
+    range, TermImageError otherwise), nothing moves, the first next() yields frame 0 *)
+Theorem C11_seek_run_before_start :
+  forall (Str Size : Type) (fmt_frame : nat -> Size -> res Str) (hash : Size -> Z) (N : nat)
+         (cached : bool) (repeat pos0 : Z) (z0 : Size) (qs : list Z) (f : Str),
+    repeat <> 0 -> fmt_frame 0%nat z0 = Ok f ->
+    trace fmt_frame hash N cached (init Str repeat pos0 z0) (seek_run Size qs) =
+    map (fun q => (if in_range N q then OSeekNotStarted else OSeekBad, pos0, None, true)) qs ++
+    [(OYield 0 f, 0, Some repeat, true)].
+Proof. exact seek_run_before_start. Qed.
+Print Assumptions C11_seek_run_before_start.
+
+(** the design in which the seek hand-shake has a second suspension point answering send()
+    ([vstep]: a seek received there is acknowledged and its position dropped, so that an
+    even number of consecutive seeks is lost) is EXCLUDED: it contradicts the specification
+    (seek(6); seek(2); next() yields frame 7) *)
+Theorem C11_seek_run_parity_refuted :
+  exists ops, vtrace run_fmt Z.of_nat 8 false (vinit nat 3 0 1%nat) ops <> strace run_fmt 8 (sinit 3 0 1%nat) ops.
+Proof. exact seek_run_parity_refuted. Qed.
+Print Assumptions C11_seek_run_parity_refuted.
+
+(* ---- round 4: the environment changes between two yields (model/ImgIterEnv.v (a)) ---- *)
+
+(** for EVERY history of next / seek / close / deletion / changes of the size SETTING
+    (fixed or dynamic) / changes of the ENVIRONMENT (terminal resize, cell ratio), [rsize g e]
+    being the rendered size of setting g under environment e: the generator, run on what it
+    can see of that history (the rendered sizes, [lower]), shows its caller exactly the
+    trace of the specification whose frames are the direct formatting of frame k under the
+    (setting, environment) pair IN FORCE AT THE TIME OF EACH YIELD ([fmt_env], [lower2]) *)
+Theorem C11_imgiter_env_refines_spec :
+  forall (Str Size Setting Env : Type) (rsize : Setting -> Env -> Size)
+         (fmt_frame : nat -> Size -> res Str) (hash : Size -> Z) (N : nat)
+         (cached : bool) (repeat pos0 : Z) (g0 : Setting) (e0 : Env) (ops : list (eop Setting Env)),
+    renderer_ok fmt_frame N -> repeat <> 0 ->
+    (cached = true -> hash_separates hash (sizes_of (rsize g0 e0) (lower rsize g0 e0 ops))) ->
+    trace fmt_frame hash N cached (init Str repeat pos0 (rsize g0 e0)) (lower rsize g0 e0 ops) =
+    strace (fmt_env rsize fmt_frame) N (sinit repeat pos0 (g0, e0)) (lower2 g0 e0 ops).
+Proof. exact imgiter_env_refines_spec. Qed.
+Print Assumptions C11_imgiter_env_refines_spec.
+
+(** a frame yielded after any such history is the direct formatting of that frame under the
+    setting and the environment in force THEN, whatever they were when the cache was filled *)
+Theorem C11_env_yield_is_direct_format :
+  forall (Str Size Setting Env : Type) (rsize : Setting -> Env -> Size)
+         (fmt_frame : nat -> Size -> res Str) (hash : Size -> Z) (N : nat)
+         (cached : bool) (repeat pos0 : Z) (g0 : Setting) (e0 : Env) (ops : list (eop Setting Env))
+         (s' : st Str Size) (k : nat) (f : Str),
+    renderer_ok fmt_frame N -> repeat <> 0 ->
+    (cached = true -> hash_separates hash (sizes_of (rsize g0 e0) (lower rsize g0 e0 ops))) ->
+    step fmt_frame hash N cached
+         (after fmt_frame hash N cached repeat pos0 (rsize g0 e0) (lower rsize g0 e0 ops)) Next = (s', OYield k f) ->
+    (k < N)%nat /\ pos s' = Z.of_nat k /\
+    fmt_frame k (rsize (fst (cur g0 e0 ops)) (snd (cur g0 e0 ops))) = Ok f.
+Proof. exact env_yield_is_direct_format. Qed.
+Print Assumptions C11_env_yield_is_direct_format.
+
+(** the design in which cached frames are validated against the size SETTING (a cache key
+    that ignores the environment) is EXCLUDED: after a pass that fills the cache and a
+    terminal resize it yields stale frames *)
+Theorem C11_setting_keyed_cache_refuted :
+  exists ops : list (eop nat nat),
+    trace (fmt_env ex_rsize env_fmt) (hash_setting_keyed (Env := nat) Z.of_nat) 2 true (init nat 2 0 (0%nat, 0%nat))
+          (lower2 0%nat 0%nat ops) <>
+    strace (fmt_env ex_rsize env_fmt) 2 (sinit 2 0 (0%nat, 0%nat)) (lower2 0%nat 0%nat ops).
+Proof. exact setting_keyed_cache_refuted. Qed.
+Print Assumptions C11_setting_keyed_cache_refuted.
 
 (** native-animation requests fall back to whole-image frames (decision rule of
     ITerm2Image._render_image; the frames of an iterator are rendered with frame = True) *)
